@@ -17,7 +17,7 @@ import (
 
 var c09Values = []string{
 	"1.1.1.1", "2.2.2.2", "::1", "new.example", "other.example", "REFUSED", "NXDOMAIN",
-	"NOERROR;TXT;hello", "NOERROR;MX;10 mx.example", "NOERROR;SRV;10 60 8080 srv.example", "NOERROR;HTTPS;10 svc.example alpn=h2",
+	"NOERROR;TXT;hello", "NOERROR;TXT;Hello", "NOERROR;MX;10 mx.example", "NOERROR;SRV;10 60 8080 srv.example", "NOERROR;HTTPS;10 svc.example alpn=h2",
 }
 
 // c09Alphabet returns rule texts: value x important x exception, the two
